@@ -833,6 +833,147 @@ def time_str(fv):
     return Agg('struct', [fv], 'FormattedTime')
 
 
+def ob_checker_demand(ctx, layout):
+    """C12 (load group, which task an activity refers to): `get_demand` with the real `CheckerContext::visit_job` and
+    `match_job_task` (MIR) for a job whose task lists are given by `layout` (e.g. ('d', 'd') = two deliveries), each task with
+    its own symbolic demand and its own place tag; the activity's type and tag are symbolic choices.  The demand handed to the
+    load rule is the demand of the task the activity really refers to: the only task of its kind for single-task jobs and
+    pickup+delivery pairs, otherwise the task (of the activity's kind) that carries the activity's tag; an activity that
+    refers to no task is an error; the demand type follows the documented table (static / dynamic by whether the job has
+    both pickups and deliveries)."""
+    name = f'checker_demand[tasks={"".join(layout)}]'
+    res = Result(name)
+    res.bounds = f'one job with tasks {layout} (p=pickup, d=delivery, s=service, r=replacement), one tagged place and one symbolic 1-dim demand each; activity type and tag symbolic choices'
+    t0 = time.time()
+    fn = ctx.prog.find_free('get_demand')
+    dt_enum = 'checker::capacity::DemandType'
+    KIND = {'p': 'pickup', 'd': 'delivery', 's': 'service', 'r': 'replacement'}
+
+    class Env(CheckerEnv):
+        def default_of(self, engine, ty):
+            base = re.sub(r'<.*$', '', ty).split('::')[-1]
+            if base == 'MultiDimLoad':
+                return self.struct('load::MultiDimLoad', load=Agg('array', [IV(0, 'i32')] * 8, '[i32; 8]'), size=IV(0))
+            return super().default_of(engine, ty)
+
+    env = Env(ctx.prog, ctx.layout, 16)
+    eng, _ = ctx.engines(env)
+    holder = {}
+    none = lambda ty: mk_option(False, ty=ty)
+
+    def body(st):
+        env.assumptions.clear()
+        tasks = {k: [] for k in KIND}
+        amounts = []
+        for i, k in enumerate(layout):
+            amount = env.sym_i(f'demand_{i}', 0, 2 ** 14, 'i32')
+            amounts.append(amount)
+            place = env.struct('problem::model::JobPlace', location=Opaque('location'), duration=FV.const(0), times=none('Option<Vec<Vec<String>>>'),
+                               tag=mk_option(True, Opaque(f'"tag{i}"'), ty='Option<String>'))
+            tasks[k].append(env.struct('problem::model::JobTask', places=VecV([place]), demand=mk_option(True, VecV([amount]), ty='Option<Vec<i32>>'), order=none('Option<i32>')))
+        lst = lambda k: mk_option(True, VecV(tasks[k]), ty='Option<Vec<JobTask>>') if tasks[k] else none('Option<Vec<JobTask>>')
+        job = env.struct('problem::model::Job', id=Opaque('"job1"'), pickups=lst('p'), deliveries=lst('d'), replacements=lst('r'), services=lst('s'),
+                         skills=none('Option<JobSkills>'), value=none('Option<f64>'), group=none('Option<String>'), compatibility=none('Option<String>'))
+        v = z3.Int('activity_type')
+        akind = eng.choose(st, [(v == i, k) for i, k in enumerate('pdsr')])
+        t = z3.Int('activity_tag')
+        atag = eng.choose(st, [(t == i, i) for i in range(-1, len(layout))])
+        act = env.struct('solution::model::Activity', job_id=Opaque('"job1"'), activity_type=Opaque('"%s"' % KIND[akind]), location=none('Option<Location>'),
+                         time=none('Option<Interval>'), job_tag=mk_option(True, Opaque(f'"tag{atag}"'), ty='Option<String>') if atag >= 0 else none('Option<String>'),
+                         commute=none('Option<Commute>'))
+        atype = EnumV('checker::ActivityType', 1, {1: [job]})
+        context = Agg('struct', [Opaque(f) for f in ctx.layout.fields('checker::CheckerContext')], 'checker::CheckerContext')
+        holder.update(amounts=amounts)
+        return (akind, atag, eng.exec_fn(st, fn, [RefV(Cell(context), 0), RefV(Cell(act), 0), RefV(Cell(atype), 0)]))
+
+    paths = eng.explore(body, max_paths=6000)
+    res.paths = len(paths)
+    res.functions |= eng.functions_used
+    saw_ok = saw_err = False
+    n_tasks = len(layout)
+    pair = n_tasks == 2 and sorted(layout) == ['d', 'p']
+    dynamic = 'p' in layout and 'd' in layout
+    for st, out in paths:
+        if out is None:
+            if not no_panic(ctx, res, env, st, what=name):
+                break
+            continue
+        akind, atag, r = out
+        amounts = holder['amounts']
+        of_kind = [i for i, k in enumerate(layout) if k == akind]
+        if n_tasks < 2 or pair:
+            want = of_kind[0] if of_kind else None
+        elif atag < 0:
+            want = None
+        else:
+            want = atag if atag in of_kind else None
+        is_ok = r.variant()
+        if is_ok is None:
+            res.status, res.detail = 'inconclusive', 'symbolic result variant'
+            break
+        if want is None:
+            claim = z3.BoolVal(is_ok == 1)
+        elif is_ok != 0:
+            claim = z3.BoolVal(False)
+        else:
+            dtype, load = r.payload[0][0].fields
+            arr = env.field(load, 'load::MultiDimLoad', 'load').fields
+            exp_type = {'r': 'StaticPickupDelivery', 'p': 'DynamicPickup' if dynamic else 'StaticPickup', 'd': 'DynamicDelivery' if dynamic else 'StaticDelivery', 's': 'None'}[akind]
+            claim = z3.And(arr[0].t == amounts[want].t, dtype.discr == DEMAND_KIND_INDEX[exp_type])
+        if not decide_claim(ctx, res, env, st, claim, what=f'{name}: activity ({KIND[akind]}, tag {atag}) refers to task {want}'):
+            if res.status == 'violated' and res.model is not None:
+                m = res.model
+                am = [m.eval(a.t, model_completion=True).as_long() for a in amounts]
+                if want is not None:
+                    res.case = checker_demand_case(layout, am)
+                elif atag < 0 and of_kind and is_ok == 0:
+                    # an untagged activity of a multi-task job was accepted: all amounts equal, so that only the missing tag is wrong
+                    res.case = checker_demand_case(layout, [max(am[0], 1)] * len(layout), untagged_kind=akind)
+            break
+        if not no_panic(ctx, res, env, st, what=name):
+            break
+        saw_ok = saw_ok or want is not None
+        saw_err = saw_err or want is None
+    if res.status == 'holds':
+        res.witnesses = int(saw_ok) + int(saw_err)
+        if not (saw_ok and saw_err):
+            res.status, res.detail = 'inconclusive', f'vacuous: ok={saw_ok} err={saw_err}'
+    res.time = time.time() - t0
+    return res
+
+
+def checker_demand_case(layout, am, untagged_kind=None):
+    """Documents of a VALID solution that serves every task of the job (pickups first), loads written from the demand of the
+    task each activity refers to (by tag): a correct checker accepts it."""
+    KIND = {'p': 'pickup', 'd': 'delivery', 's': 'service', 'r': 'replacement'}
+    LIST = {'p': 'pickups', 'd': 'deliveries', 's': 'services', 'r': 'replacements'}
+    dynamic = 'p' in layout and 'd' in layout
+    order = sorted(range(len(layout)), key=lambda i: (0 if layout[i] == 'p' else 1, i))
+    job = {'id': 'job1'}
+    for i, k in enumerate(layout):
+        task = {'places': [{'location': {'index': i + 1}, 'duration': 0.0, 'tag': f'tag{i}'}]}
+        if k != 's':
+            task['demand'] = [am[i]]
+        job.setdefault(LIST[k], []).append(task)
+    kind_of = lambda k: {'p': 'dp' if dynamic else 'sp', 'd': 'dd' if dynamic else 'sd', 'r': 'spd', 's': 'none'}[k]
+    load = sum(am[i] for i, k in enumerate(layout) if kind_of(k) in ('sd', 'spd'))
+    ns = len(layout) + 2
+    stops = [{'location': {'index': 0}, 'time': {'arrival': rfc3339(0), 'departure': rfc3339(0)}, 'distance': 0, 'load': [load],
+              'activities': [{'jobId': 'departure', 'type': 'departure'}]}]
+    for pos, i in enumerate(order, start=1):
+        kd = kind_of(layout[i])
+        load += am[i] if kd in ('sp', 'dp') else -am[i] if kd in ('sd', 'dd') else 0
+        stops.append({'location': {'index': i + 1}, 'time': {'arrival': rfc3339(pos), 'departure': rfc3339(pos)}, 'distance': 0, 'load': [load],
+                      'activities': [dict({'jobId': 'job1', 'type': KIND[layout[i]]}, **({} if layout[i] == untagged_kind else {'jobTag': f'tag{i}'}))]})
+    load -= sum(am[i] for i, k in enumerate(layout) if kind_of(k) in ('sp', 'spd'))
+    stops.append({'location': {'index': 0}, 'time': {'arrival': rfc3339(ns), 'departure': rfc3339(ns)}, 'distance': 0, 'load': [load],
+                  'activities': [{'jobId': 'arrival', 'type': 'arrival'}]})
+    problem = checker_docs(1, jobs=[job], capacity=[max(sum(am), 1)])
+    n = len(layout) + 1
+    return {'kind': 'checker', 'group': 'load', 'rule': 'load', 'dims': 1, 'problem': problem,
+            'matrix': {'profile': 'car', 'travelTimes': [0] * (n * n), 'distances': [0] * (n * n)}, 'solution': solution_doc(stops, (0, ns))}
+
+
 def ob_checker_limits(ctx, acts_per_stop, has_end=True):
     """C12 (limits group): `check_shift_limits`, `check_shift_time`, `check_recharge_limits` (real MIR) on one tour whose
     statistic, stop distances, stop times, recharge flags and whose vehicle's optional limits are symbolic: each check
@@ -971,6 +1112,7 @@ def ob_checker_limits(ctx, acts_per_stop, has_end=True):
     return res
 
 
+DEMAND_KIND_INDEX = {'None': 0, 'StaticPickup': 1, 'StaticDelivery': 2, 'StaticPickupDelivery': 3, 'DynamicPickup': 4, 'DynamicDelivery': 5}
 DEMAND_KINDS = {'none': 0, 'sp': 1, 'sd': 2, 'spd': 3, 'dp': 4, 'dd': 5}      # capacity.rs DemandType order
 KIND_TYPE = {'none': 'service', 'sp': 'pickup', 'sd': 'delivery', 'spd': 'replacement', 'dp': 'pickup', 'dd': 'delivery'}
 
